@@ -367,6 +367,20 @@ func replRecords(salt, epoch, c uint64, k, p int) []ch.Record {
 			ClientMsgNo: fmt.Sprintf("m%d-%d", c, j), ServerTimestampMS: int64(1000 + p*8 + j),
 			Payload: payload, SizeBytes: len(payload),
 		}
+		if p >= 6 {
+			// variants 6 and 7 are "boundary shifts" of each other: identical id, timestamp, payload and
+			// identical concatenation FromUID‖ClientMsgNo, split at a different place.  They are different
+			// content (the entry digest length-prefixes every field) and must conflict.
+			recs[j].ID = salt + 1 + c*64 + 6*8 + uint64(j)
+			recs[j].ServerTimestampMS = int64(1000 + 6*8 + j)
+			recs[j].Payload = []byte(fmt.Sprintf("c%d-shift-j%d", c, j))
+			recs[j].SizeBytes = len(recs[j].Payload)
+			if p == 6 {
+				recs[j].FromUID, recs[j].ClientMsgNo = "alice", fmt.Sprintf("7-%d-%d", c, j)
+			} else {
+				recs[j].FromUID, recs[j].ClientMsgNo = "alice7", fmt.Sprintf("-%d-%d", c, j)
+			}
+		}
 	}
 	return recs
 }
@@ -556,6 +570,10 @@ func (r *replRunner) exec(f []string) string {
 			prop.ServerAllocatedMessageIDs = true
 			for j := range prop.Records {
 				prop.Records[j].FromUID, prop.Records[j].ClientMsgNo = "", ""
+				if p == 7 { // keep variant 7 different from 6 without the key fields
+					prop.Records[j].Payload = append(prop.Records[j].Payload, '\'')
+					prop.Records[j].SizeBytes = len(prop.Records[j].Payload)
+				}
 			}
 		}
 		r.ack = ack
@@ -1067,7 +1085,10 @@ func (s *replGenState) commit() {
 	case kind == 2 && len(s.cmds) > 0:
 		i := len(s.cmds) - 1 - g.R.Intn(minInt(len(s.cmds), 3))
 		c, k, p = s.cmds[i][0], s.cmds[i][1], s.cmds[i][2]
-		if g.R.Bool() {
+		if p >= 6 && !g.R.Chance(25) {
+			p = 13 - p // the boundary-shifted twin
+			g.Count("commit:retry-boundary-shift")
+		} else if g.R.Bool() {
 			p = (p + 1 + g.R.Intn(6)) % 8
 		} else {
 			k = 1 + (k % 3)
@@ -1076,6 +1097,9 @@ func (s *replGenState) commit() {
 	default:
 		s.nextCmd++
 		c, k, p = s.nextCmd, g.R.Pick(0, 6, 3, 2), g.R.Intn(3)
+		if g.R.Chance(15) {
+			p = 6 + g.R.Intn(2)
+		}
 		if g.R.Chance(2) {
 			c = 0
 			g.Count("commit:zero-command")
